@@ -393,6 +393,14 @@ fn run_inner(ctx: &mut Ctx) {
                 ["pth.file", h] => file_case(ctx, "pth", &unhex(h), true),
                 ["smx.drib", k, h] => dribble_case(ctx, "smx", &unhex(h), k.parse().unwrap_or(1)),
                 ["pth.drib", k, h] => dribble_case(ctx, "pth", &unhex(h), k.parse().unwrap_or(1)),
+                ["smx.name", t] => {
+                    let name = crate::text::from_cps(t);
+                    let mut x = gen_smx(&mut ctx.rng, 1, 0); x.track = name.clone();
+                    if let Some(Ok(b)) = write_smx(&x) {
+                        let mut want = crate::text::spec_encode(&name); want.truncate(32); want.resize(32, 0);
+                        if b.len() < 48 || b[16..48] != want[..] { ctx.violation("c17/smx/track-name-encoding", "the track name field of the written file is not the name in LFS's text encoding, NUL-padded to 32 bytes", &l, &hex(&want), &hex(&b[16.min(b.len())..48.min(b.len())])); }
+                    }
+                },
                 ["smx.wdrib", k, h] => wdribble_case(ctx, "smx", &unhex(h), k.parse().unwrap_or(1).max(1)),
                 ["pth.wdrib", k, h] => wdribble_case(ctx, "pth", &unhex(h), k.parse().unwrap_or(1).max(1)),
                 ["pth.at", k, h] => offset_case(ctx, "pth", &unhex(h), k.parse().unwrap_or(0)),
@@ -467,10 +475,18 @@ fn run_inner(ctx: &mut Ctx) {
                 smx_case(ctx, &img, "track-text", false);
             }
         }
-        for name in ["A\u{65e5}\u{672c}", "\u{11b}", "x\u{448}y\u{e9}", "Blackwood ^1GP", "50%^"] {
+        for name in ["A\u{65e5}\u{672c}", "\u{11b}", "x\u{448}y\u{e9}", "Blackwood ^1GP", "50%^", "\u{b300}\u{d55c}\u{bbfc}\u{ad6d}", "\u{b300}\u{d55c}\u{bbfc}\u{ad6d}\u{c790}\u{b3d9}\u{cc28}\u{acbd}\u{c8fc}\u{c7a5}", "\u{7f8e}\u{4e3d}", "\u{3b1}\u{3b2}\u{3b3}", "\u{5e9}\u{5dc}"] {
             let mut t = gen_smx(&mut ctx.rng, 1, 0);
             t.track = name.to_string();
-            if let Some(Ok(b)) = write_smx(&t) { smx_case(ctx, &b, "track-text", true); }
+            if let Some(Ok(b)) = write_smx(&t) {
+                smx_case(ctx, &b, "track-text", true);
+                // the 32-byte name field of the written file is LFS's encoding of the name (specification table), cut to the field
+                ctx.oracle_eval("track-name-encoding");
+                let mut want = crate::text::spec_encode(name); want.truncate(32); want.resize(32, 0);
+                if b.len() < 48 || b[16..48] != want[..] {
+                    ctx.violation("c17/smx/track-name-encoding", "the track name field of the written file is not the name in LFS's text encoding, NUL-padded to 32 bytes", &format!("smx.name {}", crate::text::cps(name)), &hex(&want), &hex(&b[16.min(b.len())..48.min(b.len())]));
+                }
+            }
         }
     }
     // files that do not start at position 0 of their reader / writer
